@@ -836,18 +836,22 @@ package lang
 
 // C09: a target such as a.b.x is evaluated before the right-hand side, which may itself create a.b
 // (a.b.x = a.b.y = 1).  The store then goes into the container that is there, never into a replacement.
-//@ spec func isContainerCell(c *Cell) bool = c != nil && (c.Value.Tag == ValueObj || c.Value.Tag == ValueArray)
+//@ spec func isContainerCell(c *Cell) bool = c != nil && c.Value.Tag != ValueNil && c.Value.Tag != ValueUnknown
 //@ func existingContainer [C01,C09]
 //@   requires spec != nil
 //@   updates nothing
 //@   modifies nothing
-//@   ensures[C09] only-a-container-standing-where-a-placeholder-was: result != nil ==> (result.Tag == ValueObj || result.Tag == ValueArray) && spec.Tag == ValueNil && spec.ParentObj != nil
+//@   ensures[C09,C11] only-a-value-standing-where-a-placeholder-was: result != nil ==> result.Tag != ValueNil && result.Tag != ValueUnknown && spec.Tag == ValueNil && spec.ParentObj != nil
 //@   ensures[C09] a-member-created-meanwhile-is-found: spec.Tag == ValueNil && spec.ParentObj != nil && spec.ParentObj.Tag == ValueObj && spec.Str != nil && has(*spec.ParentObj.Obj, *spec.Str) && isContainerCell((*spec.ParentObj.Obj)[*spec.Str]) ==> result == &(*spec.ParentObj.Obj)[*spec.Str].Value
 //@   ensures[C09] an-element-created-meanwhile-is-found: spec.Tag == ValueNil && spec.ParentObj != nil && spec.ParentObj.Tag == ValueArray && spec.Num != nil && 0 <= int(*spec.Num) && int(*spec.Num) < len(spec.ParentObj.Array) && isContainerCell(spec.ParentObj.Array[int(*spec.Num)]) ==> result == &spec.ParentObj.Array[int(*spec.Num)].Value
 //@ ghost $found *Value
+//@ ghost $foundScalar bool
 //@ func Evaluator.createSpeculativeObjects [C01,C09,C11,C20]
 //@   init $found = nil
 //@   after existingContainer: $found = ret0
+//@   init $foundScalar = false
+//@   after existingContainer: $foundScalar = (ret0 != nil && scalarTag(ret0.Tag))
+//@   ensures[C09,C11] a-scalar-created-meanwhile-refuses-the-store-instead-of-being-replaced: $foundScalar ==> err != nil
 //@   assert[C09] a-parent-created-meanwhile-is-reused-not-replaced: $found == nil @ Evaluator.createSpeculativeObjects
 //@   assert[C09] the-store-goes-into-the-container-that-is-there: $found != nil ==> arg0 == $found @ Value.SetMember
 //@   allocbound[C20] no-allocation-sized-by-an-index: 16
